@@ -480,12 +480,14 @@ Qed.
 (* one line: drawing l1 and then l2 at the returned position gives the pixel map of l1 ++ l2 *)
 Theorem draw_string_chain F s l1 l2 pos b p :
   font_ok (mf_geom F) -> f_sp (mf_geom F) = 0 -> draw_ok (mf_geom F) pos (length (l1 ++ l2)) ->
+  index_ok F (l1 ++ l2) ->
   let r1 := draw_string F s l1 pos b in
   let r2 := draw_string F s l2 (snd r1) b in
   let r12 := draw_string F s (l1 ++ l2) pos b in
   snd r2 = snd r12 /\ render (fst r1 ++ fst r2) p = render (fst r12) p.
 Proof.
-  intros Hf Hsp Hd. cbn zeta. set (f := mf_geom F) in *.
+  intros Hf Hsp Hd Hix. cbn zeta. set (f := mf_geom F) in *.
+  destruct (proj1 (index_ok_app F l1 l2) Hix) as [Hix1 Hix2].
   assert (Hcw : 0 <= f_cw f) by (red in Hf; tauto).
   assert (Hsp0 : 0 <= f_sp f) by lia.
   rewrite !draw_string_next. fold f. rewrite !advance_nosp by assumption. cbn [px py].
@@ -559,23 +561,34 @@ Proof.
     + apply IH; [|exact Hin]. intros H2. apply H. right. exact H2.
 Qed.
 
+Lemma strip_cr_incl l : incl (strip_cr l) l.
+Proof.
+  induction l as [|c l IH]; [intros x []|]. destruct l as [|c2 l].
+  - cbn. destruct (c =? 13); [intros x []|apply incl_refl].
+  - change (strip_cr (c :: c2 :: l)) with (c :: strip_cr (c2 :: l)).
+    intros x [->|Hx]; [left; reflexivity|right; apply IH, Hx].
+Qed.
+
 (* single line, left aligned, no spacing: draw s1, then s2 at the returned position = draw (s1 ++ s2).
    s1 must not end in '\r' (Text strips one trailing '\r' of every line, see FINDINGS) *)
 Theorem text_chain_left F s ts pos s1 s2 p :
   t_align ts = ALeft -> font_ok (mf_geom F) -> f_sp (mf_geom F) = 0 ->
   no_nl s1 -> no_nl s2 -> strip_cr s1 = s1 -> draw_ok (mf_geom F) pos (length (s1 ++ s2)) ->
+  index_ok F (s1 ++ s2) ->
   let r1 := text_draw F s ts pos s1 in
   let r2 := text_draw F s ts (snd r1) s2 in
   let r12 := text_draw F s ts pos (s1 ++ s2) in
   snd r2 = snd r12 /\ render (fst r1 ++ fst r2) p = render (fst r12) p.
 Proof.
-  intros Ha Hf Hsp H1 H2 Hc Hd. cbn zeta.
+  intros Ha Hf Hsp H1 H2 Hc Hd Hix. cbn zeta.
   rewrite !text_draw_single_line by (auto using no_nl_app).
   unfold line_position. rewrite Ha. rewrite Hc, strip_cr_app_clean by assumption.
   apply draw_string_chain; auto.
-  assert (Hcw : 0 <= f_cw (mf_geom F)) by (red in Hf; tauto).
-  eapply draw_ok_le; [assumption|lia| |exact Hd].
-  rewrite !app_length. pose proof (strip_cr_length s2). lia.
+  - assert (Hcw : 0 <= f_cw (mf_geom F)) by (red in Hf; tauto).
+    eapply draw_ok_le; [assumption|lia| |exact Hd].
+    rewrite !app_length. pose proof (strip_cr_length s2). lia.
+  - apply index_ok_app in Hix. destruct Hix as [Hi1 Hi2]. apply index_ok_app. split; [assumption|].
+    eapply index_ok_incl; [|exact Hi2]. apply strip_cr_incl.
 Qed.
 
 (* the same after any number of complete lines: s1 = a ++ "\n" ++ lk *)
@@ -583,17 +596,17 @@ Theorem text_chain_left_multiline F s ts pos a lk s2 p :
   t_align ts = ALeft -> font_ok (mf_geom F) -> f_sp (mf_geom F) = 0 ->
   no_nl lk -> no_nl s2 -> strip_cr lk = lk ->
   let pos2 := shift_y pos (Z.of_nat (length (split_nl a)) * text_line_height (mf_geom F) ts) in
-  draw_ok (mf_geom F) pos2 (length (lk ++ s2)) ->
+  draw_ok (mf_geom F) pos2 (length (lk ++ s2)) -> index_ok F (lk ++ s2) ->
   let s1 := a ++ 10 :: lk in
   let r1 := text_draw F s ts pos s1 in
   let r2 := text_draw F s ts (snd r1) s2 in
   let r12 := text_draw F s ts pos (s1 ++ s2) in
   snd r2 = snd r12 /\ render (fst r1 ++ fst r2) p = render (fst r12) p.
 Proof.
-  intros Ha Hf Hsp H1 H2 Hc. cbn zeta. intros Hd.
+  intros Ha Hf Hsp H1 H2 Hc. cbn zeta. intros Hd Hix.
   rewrite <- app_assoc. cbn [app]. rewrite !text_draw_newline_split. cbn zeta. cbn [fst snd].
   set (pos2 := shift_y pos _) in *.
-  destruct (text_chain_left F s ts pos2 lk s2 p Ha Hf Hsp H1 H2 Hc Hd) as [E1 E2]. cbn zeta in E1, E2.
+  destruct (text_chain_left F s ts pos2 lk s2 p Ha Hf Hsp H1 H2 Hc Hd Hix) as [E1 E2]. cbn zeta in E1, E2.
   split; [exact E1|].
   rewrite <- app_assoc, !(render_app (fst (text_draw F s ts pos a))). rewrite E2. reflexivity.
 Qed.
@@ -653,4 +666,81 @@ Corollary align_center f s ts pos text k line p :
 Proof.
   intros H1 H2 Ha H. pose proof (text_alignment f s ts pos text k line p H1 H2 H) as A. cbn zeta in A |- *.
   rewrite Ha in A. tauto.
+Qed.
+
+(* ====================================================================== C15 crlf_eq_lf, exact condition *)
+(* only a line that is FOLLOWED BY "\r\n" must not itself end in '\r' ("x\r" + "\r\n" loses only one CR);
+   the last line and lines followed by a plain "\n" are unrestricted *)
+Fixpoint crlf_ok (l0 : list Z) (rest : list (bool * list Z)) : Prop :=
+  match rest with
+  | [] => no_nl l0
+  | (crlf, l) :: t => no_nl l0 /\ (crlf = true -> strip_cr l0 = l0) /\ crlf_ok l t
+  end.
+
+Lemma clean_crlf_ok l0 rest :
+  clean_line l0 -> Forall (fun bl => clean_line (snd bl)) rest -> crlf_ok l0 rest.
+Proof.
+  revert l0. induction rest as [|[crlf l] t IH]; intros l0 [Hn Hs] Hall; cbn [crlf_ok]; [exact Hn|].
+  inversion Hall; subst. repeat split; auto.
+Qed.
+
+Lemma crlf_ok_as_lf l0 rest : crlf_ok l0 rest -> crlf_ok l0 (as_lf rest).
+Proof.
+  revert l0. induction rest as [|[crlf l] t IH]; intros l0 H; cbn [crlf_ok as_lf map snd] in *; [exact H|].
+  destruct H as (H1 & _ & H3). repeat split; [exact H1|discriminate|apply IH, H3].
+Qed.
+
+Lemma stripped_lines_of_join l0 rest :
+  crlf_ok l0 rest ->
+  map strip_cr (split_nl (join_lines l0 rest)) = map strip_cr (l0 :: map snd rest).
+Proof.
+  revert l0. induction rest as [|[crlf l] t IH]; intros l0 H; cbn [join_lines map snd crlf_ok] in *.
+  - rewrite split_nl_no_nl by assumption. reflexivity.
+  - destruct H as (Hn & Hc & Ht). destruct crlf.
+    + change (l0 ++ [13; 10] ++ join_lines l t) with (l0 ++ [13] ++ 10 :: join_lines l t).
+      rewrite app_assoc, split_nl_line by (apply no_nl_app; [assumption|intros [H|[]]; discriminate]).
+      cbn [map]. rewrite strip_cr_snoc_cr, (Hc eq_refl), IH by assumption. reflexivity.
+    + change (l0 ++ [10] ++ join_lines l t) with (l0 ++ 10 :: join_lines l t).
+      rewrite split_nl_line by assumption. cbn [map]. rewrite IH by assumption. reflexivity.
+Qed.
+
+Theorem text_lines_crlf_ok f s ts pos l0 rest :
+  crlf_ok l0 rest ->
+  text_lines f s ts pos (join_lines l0 rest) = text_lines f s ts pos (join_lines l0 (as_lf rest)).
+Proof.
+  intros H. unfold text_lines. apply lines_from_strip.
+  rewrite !stripped_lines_of_join by (auto using crlf_ok_as_lf). unfold as_lf. rewrite map_map. reflexivity.
+Qed.
+
+Theorem text_draw_crlf_ok F s ts pos l0 rest :
+  crlf_ok l0 rest ->
+  text_draw F s ts pos (join_lines l0 rest) = text_draw F s ts pos (join_lines l0 (as_lf rest)).
+Proof. intros H. unfold text_draw. rewrite (text_lines_crlf_ok _ _ _ _ _ _ H). reflexivity. Qed.
+
+Theorem text_bbox_crlf_ok f s ts pos l0 rest :
+  crlf_ok l0 rest ->
+  text_bbox f s ts pos (join_lines l0 rest) = text_bbox f s ts pos (join_lines l0 (as_lf rest)).
+Proof. intros H. unfold text_bbox. rewrite (text_lines_crlf_ok _ _ _ _ _ _ H). reflexivity. Qed.
+
+(* the lines that are drawn: the joined lines, each without one trailing '\r' *)
+Theorem text_lines_of_join_ok f s ts pos l0 rest :
+  crlf_ok l0 rest ->
+  map fst (text_lines f s ts pos (join_lines l0 rest)) = map strip_cr (l0 :: map snd rest).
+Proof.
+  intros H. unfold text_lines. rewrite <- (stripped_lines_of_join l0 rest H).
+  generalize (split_nl (join_lines l0 rest)). intros raws. revert pos.
+  induction raws as [|r raws IH]; intros pos; cbn [lines_from map fst]; [reflexivity|]. f_equal. apply IH.
+Qed.
+
+(* ====================================================================== exact positions *)
+Theorem line_position_exact f s ts pos text k line p :
+  0 <= f_cw f -> 0 <= f_sp f ->
+  nth_error (text_lines f s ts pos text) k = Some (line, p) ->
+  let w := line_width f (length line) in
+  p = P (px pos - match t_align ts with ALeft => 0 | ARight => w - 1 | ACenter => Z.quot (w - 1) 2 end)
+        (py pos + Z.of_nat k * text_line_height f ts).
+Proof.
+  intros H1 H2 H. destruct (text_lines_nth _ _ _ _ _ _ _ _ H) as (raw & _ & _ & ->). cbn zeta.
+  unfold line_position. rewrite measure_string_eq by assumption. cbn [snd].
+  destruct (t_align ts); unfold psub, shift_y; cbn [px py]; f_equal; lia.
 Qed.
